@@ -353,6 +353,8 @@ func vNewUP4(poolCells int64, sliceID, defaultTC uint8, qfiToTC map[uint8]uint8)
 		fseidToUEAddr:  make(map[uint64]uint32),
 		counters:       make([]counter, 2),
 	}
+	vSkipGo("(*github.com/omec-project/upf-epc/pfcpiface.UP4).listenToDDNs")
+	vSkipGo("(*github.com/omec-project/upf-epc/pfcpiface.UP4).endMarkerSendLoop")
 	u.initTunnelPeerIDs()
 	u.initApplicationIDs()
 	u.initAllCounters()
